@@ -38,6 +38,7 @@ class TcpConnection():
         self.read_mode_on = threading.Event()
 
         self.lock = threading.Lock()
+        self._recv_lock = threading.Lock()
 
         self.recv_data_consumed = False
         
@@ -227,8 +228,9 @@ class TcpConnection():
         self._read()
 
         if self._recv_buffer:
-            self._recv_data_stream += copy.copy(self._recv_buffer)
-            self._recv_data_available.set()
+            with self._recv_lock:
+                self._recv_data_stream += copy.copy(self._recv_buffer)
+                self._recv_data_available.set()
             self._recv_buffer = b""
 
         tcp_connection.debug(f"[Socket-{self.sock_id}] _recv_buffer has "\
